@@ -1,6 +1,6 @@
 """C18 — date-time and duration text forms round-trip (structural clauses)."""
 from ..facts import walk, strip, strip_casts, lv, show, writes, calls, int_value
-from ..q import const_eval, backward_scan
+from ..q import const_eval, backward_scan, forward_scan
 from ..snapshot import AnalysisBroken
 from . import c08
 
@@ -241,6 +241,45 @@ def r18_4(prog, rep):
                      "(seconds/milliseconds) is not read back" % (win[0], name, m))
 
 
+def r18_5(prog, rep):
+    """The value is a number of milliseconds; the printer peels off days, hours, minutes and seconds by successive division.  What is
+    left after the smallest unit it prints must be looked at again (tested for zero, or printed as a fraction): otherwise every
+    duration that is not a whole number of that unit reads back as a different value."""
+    rid = "R18.5"
+    w = prog.fn("idiff_strf", "dt-strpf.c")
+    cfg = w.cfg
+    val = None
+    divs = []
+    for b, i, x, line in cfg.all_elems():
+        for nn in walk(x if isinstance(x, dict) else {}):
+            if nn.get("k") == "bin" and nn["op"] in ("/", "/=") :
+                c = const_eval(w, nn["r"])
+                l = strip_casts(nn["l"])
+                if c and c >= 1000 and l.get("k") in ("mem", "ref"):
+                    divs.append((c, b, i, lv(l), nn.get("line", line)))
+    if len(divs) < 3:
+        raise AnalysisBroken("idiff_strf: the unit divisions were not found (%s)" % [d[0] for d in divs])
+    c, b, i, val, line = min(divs)
+    # reads of the value after the division by the smallest unit, other than its own `%=` / `-=` bookkeeping
+    def visit(bb, ii, xx):
+        if not isinstance(xx, dict):
+            return None
+        for nn in walk(cfg.resolve(xx)):
+            if nn.get("k") in ("mem", "ref") and lv(nn) == val:
+                # is this occurrence only the target (and implicit operand) of a compound assignment?
+                own = any(lv(l) == val and kind in ("compound", "assign") for l, kind, n2 in writes(xx))
+                if not own:
+                    return "hit"
+        return None
+    hits, _ = forward_scan(cfg, (b, i), visit)
+    key = "idiff_strf/sub-second-remainder"
+    if hits:
+        rep.ok(rid, key, w.loc(line), "what is left after the smallest printed unit (%d ms) is examined again" % c)
+    else:
+        rep.fail(rid, key, w.loc(line), "the smallest unit idiff_strf() prints is %d ms and what is left of %s after it is never looked at again: a duration that is "
+                 "not a whole number of seconds loses its remainder (1500 ms prints as PT1S and reads back as 1000; 500 ms prints as the malformed `PT`)" % (c, val))
+
+
 def run(prog, rep, tier, snap):
     rep.rule("R18.1", "64-bit accumulation in the duration parser", 2)
     rep.call(r18_1, prog, rep)
@@ -248,6 +287,8 @@ def run(prog, rep, tier, snap):
     rep.call(r18_2, prog, rep)
     rep.rule("R18.3", "unit letters and multipliers agree between idiff_strf and idiff_strp", 8)
     rep.call(r18_3, prog, rep)
+    rep.rule("R18.5", "the duration printer does not drop what is left below its smallest unit", 1)
+    rep.call(r18_5, prog, rep)
     rep.rule("R18.4", "the instant parser's default window covers the printers' longest output", 2)
     rep.call(r18_4, prog, rep)
     rep.rule("R08.2", "calendar tables used by the text forms agree with the calendar (shared with C08)", 15)
